@@ -104,15 +104,18 @@ def _search(prop, spec, corr, tier, seed, mon, workdir):
     # runs in which the correspondence already mismatched come first
     bad_runs = [r["name"] for r in corr.get("runs", []) if r.get("mismatches")]
     ordered = sorted(RUNS, key=lambda r: (r["name"] not in bad_runs))
+    mon_prims = {r["prim"] for r in RUNS if r["name"] in mon["runs"]}
     for run in ordered:
-        if run["name"] not in mon["runs"]:
+        # the runs registered for the monitor, and any other run of the same primitive in which
+        # the correspondence mismatched (e.g. the shared-waker runs)
+        if run["name"] not in mon["runs"] and not (run["name"] in bad_runs and run["prim"] in mon_prims):
             continue
         if time.time() > deadline:
             return None
         hist = os.path.join(workdir, "full.hist")
         with open(hist, "w") as hf:
             try:
-                subprocess.run([MODELRUN, "explore-full", run["prim"], run["cfg"], str(budget)], stdout=hf, stderr=subprocess.DEVNULL, timeout=SEARCH_STEP_S)
+                subprocess.run([MODELRUN, run.get("explore_cmd", "explore") + "-full", run["prim"], run["cfg"], str(budget)], stdout=hf, stderr=subprocess.DEVNULL, timeout=SEARCH_STEP_S)
             except subprocess.TimeoutExpired:
                 pass   # the histories written so far are still used
             rc = run.get("random_cfg", run["cfg"])
@@ -170,7 +173,7 @@ def filter_known(prop, violations, failing, known):
     return violations, hits
 
 
-def followup(prop, spec, corr, tier, seed):
+def followup(prop, spec, corr, tier, seed, all_keys=False):
     """Divergence follow-up: the implementation's state differs from the model's on observables
     this property does not compare (typically the queue snapshot).  The exploration is
     model-guided, so behaviour AFTER such a divergence was not explored: continue every
@@ -183,7 +186,8 @@ def followup(prop, spec, corr, tier, seed):
     div = {}
     for r in corr["runs"]:
         for m in r["mismatches"]:
-            if m["key"] in keys or m["key"] in ("crash", "shape", "a") or not m.get("history"):
+            if ((m["key"] in keys and not all_keys) or m["key"] in ("crash", "shape", "a") or not m.get("history")
+                    or m["history"].split(";")[2] not in ("L", "A")):
                 continue
             div.setdefault((r["name"], m["flavour"].split("@")[0]), [])
             if m["history"] not in div[(r["name"], m["flavour"].split("@")[0])] and len(div[(r["name"], m["flavour"].split("@")[0])]) < 60:
